@@ -85,7 +85,8 @@ ROW.update(_same(["atan", "cbrt", "ceil", "ceiling", "cos", "cot", "degrees", "e
 ROW.update(_same(["expm1"], [["x"], ["p"]]))
 ROW.update(_same(["rint"], [["x"], ["y"]]))
 ROW.update(_same(["round"], [["x"], ["x", L(1)], ["p", L(2)]]))
-ROW.update(_same(["ln", "log10", "log1p", "log2", "sqrt"], [["p"]]))
+ROW.update(_same(["ln", "log10", "log2", "sqrt"], [["p"]]))
+ROW["log1p"] = [["p"], [E("F.col('p')")]]
 ROW["log"] = [["p"], [L(2.0), "p"]]
 ROW["atan2"] = [["x", "y"], ["x", L(2.0)]]
 ROW.update(_same(["pow", "power"], [["x", "j"], ["p", L(0.5)]]))
@@ -96,7 +97,7 @@ ROW["unhex"] = [["hx"]]
 ROW.update(_same(["bitwiseNOT", "bitwise_not"], [["i"]]))
 ROW.update(_same(["shiftleft", "shiftLeft"], [["i", L(2)]]))
 ROW.update(_same(["shiftright", "shiftRight"], [["i", L(1)]]))
-ROW["nanvl"] = [["x", "y"], [E("F.lit(float('nan'))"), "y"]]
+ROW["nanvl"] = [["x", "y"], [E("F.lit(float('nan'))"), "y"], [E("F.lit(None).cast('double')"), "y"]]
 ROW["e"] = [[]]
 ROW.update(_same(["greatest", "least"], [["i", "j", "k"], ["x", "y"]]))
 # strings
@@ -389,7 +390,7 @@ def compare(fn, spark, duck, stats=None):
 
     def cmp(s, d, top=False):
         if s is None or d is None:
-            return "" if (s is None and d is None) else f"null-ness differs (spark {short(s)}, duckdb {short(d)})"
+            return "" if (s is None and d is None) else f"null-ness differs (spark {short(s)}, sqlframe {short(d)})"
         ns, nd = num(s), num(d)
         if ns and nd:
             if ns[0] == "i" and nd[0] == "i":
@@ -417,8 +418,11 @@ def compare(fn, spark, duck, stats=None):
                 bump("float_within_ulp_bound")
                 return ""
             return f"float differs by {u} ulp" if u != math.inf else "float differs (NaN/inf)"
+        if isinstance(s, dict) and isinstance(d, dict) and "map" in s and "row" in d:
+            bump("map_returned_as_Row_entries_compared")     # the client hands a DuckDB MAP back as Row (C09's subject)
+            d = {"map": [[k, v] for k, v in d["row"]]}
         if type(s) != type(d):
-            return f"type differs (spark {short(s)}, duckdb {short(d)})"
+            return f"type differs (spark {short(s)}, sqlframe {short(d)})"
         if isinstance(s, list):
             if len(s) != len(d):
                 return f"array length differs ({len(s)} vs {len(d)})"
@@ -431,7 +435,7 @@ def compare(fn, spark, duck, stats=None):
             return ""
         if isinstance(s, dict):
             if set(s) != set(d):
-                return f"type differs (spark {short(s)}, duckdb {short(d)})"
+                return f"type differs (spark {short(s)}, sqlframe {short(d)})"
             if "map" in s:
                 ss, dd = sorted(s["map"], key=_sort_key), sorted(d["map"], key=_sort_key)
                 if len(ss) != len(dd):
